@@ -214,7 +214,7 @@ def symbol_models():
                             continue
                         out.append({
                             "scope": scope, "is_parameter": param, "is_assigned": assigned,
-                            "is_nonlocal": nonlocal_, "is_imported": imported,
+                            "is_nonlocal": nonlocal_, "is_imported": imported, "exists": True,
                             "is_local": scope in ("LOCAL", "CELL"),
                             "is_free": scope == "FREE",
                             "is_global": scope.startswith("GLOBAL"),
@@ -228,6 +228,8 @@ SYMBOL_PREDS = ("is_declared_global", "is_global", "is_local", "is_free", "is_no
 
 def classify_key(key, comp_attrs=()):
     """Decision key of a namespace method -> abstract predicate name."""
+    if re.search(r"^in:Name\.id:Namespace\.symt\.get_identifiers\(\)$", key):
+        return ("sym", "exists")  # the models describe a symbol OF this scope's table
     for p in SYMBOL_PREDS:
         if f".{p}()" in key:
             return ("sym", p)
@@ -591,12 +593,18 @@ def rule_r3(ctx):
         classes = {k: classify_key(k, comp_attrs) for k in keys}
         # a test the oracle has no axiom for (e.g. hasattr(builtins, name)) is a free boolean: it may
         # be true or false for any symbol
+        # questions about the ENCLOSING namespaces (the chain stack[-1], .outer_nsp, ...): they answer
+        # the oracle fact SHADOW = "some enclosing function binds a variable of the same name"
+        outer_keys = [k for k in classes if re.search(r"stack\[-1\]", k)]
+        for k in outer_keys:
+            classes[k] = ("outer", k)
         free = {k: "P:" + re.sub(r"[^A-Za-z_]+", "-", k.split(":", 1)[-1])[:40].strip("-") for k, c in classes.items() if c[0] == "other"}
         for k, nm in free.items():
             classes[k] = ("host", nm)
             rr.note(f"{ci.name}: `{k}` is treated as a free predicate")
-        mem = sorted({c[1] for c in classes.values() if c[0] == "mem"})
+        mem = sorted({c[1] for c in classes.values() if c[0] == "mem"} | ({"SHADOW"} if ci is not glob else set()))
         hosts = sorted({c[1] for c in classes.values() if c[0] == "host"})
+        first_level = min((len(k) for k in outer_keys if k.startswith("isnone:")), default=None)
         failing = {}
         n_models = 0
         for model in models:
@@ -615,6 +623,8 @@ def rule_r3(ctx):
                             continue
                 if mv.get("COMP"):
                     continue  # comprehension targets are load-only names of an inner scope
+                if mv.get("SHADOW") and model["scope"] != "GLOBAL_EXPLICIT":
+                    continue  # only a declared-global name bypasses the enclosing functions
                 for host_vals in itertools.product((False, True), repeat=len(hosts)):
                     hv = dict(zip(hosts, host_vals))
                     assignment = {}
@@ -625,6 +635,15 @@ def rule_r3(ctx):
                             assignment[k] = mv[c[1]]
                         elif c[0] == "host":
                             assignment[k] = hv[c[1]]
+                        elif c[0] == "outer":
+                            # the first link of the chain decides: it is a function that binds the
+                            # name (SHADOW), or the chain ends there (no SHADOW)
+                            lvl1 = k.count(".outer_nsp") == 0
+                            if mv.get("SHADOW"):
+                                if lvl1:
+                                    assignment[k] = not k.startswith("isnone:")
+                            elif k.startswith("isnone:") and first_level is not None and len(k) == first_level:
+                                assignment[k] = True
                     sp = [p for p in st.paths if _match(p, assignment)]
                     lp = [p for p in ld.paths if _match(p, assignment)]
                     if len(sp) != 1 or len(lp) != 1:
@@ -637,7 +656,9 @@ def rule_r3(ctx):
                     # a free name is stored only when declared nonlocal: skip impossible stores
                     compatible = (
                         s_kind == l_kind
-                        or ({s_kind[0], l_kind[0]} == {"plain", "globals"} and model["is_global"])
+                        # a bare name reaches the module global only if no enclosing function binds the
+                        # same name (the converted scopes are lambdas nested in those functions' lambdas)
+                        or ({s_kind[0], l_kind[0]} == {"plain", "globals"} and model["is_global"] and not mv.get("SHADOW"))
                         or (model["scope"] == "GLOBAL_IMPLICIT" and True and s_kind[0] in ("plain", "classdict") and l_kind[0] == "plain" and ci is not glob and False)
                     )
                     # an implicit global is never assigned in this scope (it would be local): no store to compare
@@ -1036,6 +1057,31 @@ def rule_r9(ctx):
             )
         else:
             raise AnalysisError(f"C06-R9: cannot classify the open/close discipline of nsp.{attr}: {sorted(opened)} / {sorted(closed)}")
+    # the outermost iterable of a comprehension is evaluated in the ENCLOSING scope (reference 6.2.4):
+    # its names must be rewritten before the comprehension's own targets are registered
+    from .exprcopy import all_expr_paths
+
+    rr.instances += 1
+    early = None
+    for kind in SCOPE_KINDS[1:]:
+        for pr in all_expr_paths(ctx).get(kind, []):
+            if pr.outcome != "ok":
+                continue
+            for e in pr.effects:
+                if e.get("obj") == "self.nsp" and e["kind"] in ("append", "add", "update", "extend") and e.get("attr") in reg:
+                    if e.get("phase") == 0:
+                        early = early or (kind, e)
+                    elif e.get("phase") != 1:
+                        raise AnalysisError("C06-R9: the comprehension wrapper registers its targets in get_result")
+    if early:
+        kind, e = early
+        rr.fail(
+            "C06-R9|PendingComp|outermost-iterable-under-own-targets",
+            f"the comprehension wrapper registers its targets in its CONSTRUCTOR (nsp.{e['attr']}.{e['kind']}), i.e. before any of its parts is rewritten: the outermost iterable - which Python evaluates in the enclosing scope - is rewritten with the comprehension's own targets in force. `[x * 2 for x in x]` with `x` captured by an inner function reads a plain `x` (NameError) instead of the shared dict; with `x` a parameter it reads the stale parameter",
+            what="registry|outermost-iterable",
+        )
+    else:
+        rr.ok("registry|outermost-iterable", sample={"rule": "C06-R9", "verdict": "targets are registered while the parts are rewritten, not in the constructor"})
     attrs = [a for a, (o, c) in reg.items() if o]
     for ci in leaves:
         if ci is glob:
